@@ -146,8 +146,8 @@ def sc_hist(cases, outs):
 # ------------------------------------------------------------------------------------------------
 # pkt: stream / datagram / control packets
 # ------------------------------------------------------------------------------------------------
-def pkt_case(kind, suite, seed, flags, key, cred, q, sq, pn, nec, off, fin, port, al, a0, cl, c0, pl, tail):
-    return [0, kind, suite, seed, flags, key] + list(cred) + [q, sq, pn, nec, off, fin, port, al, a0, cl, c0, pl] + tail
+def pkt_case(kind, suite, seed, flags, key, cred, q, sq, pn, nec, off, fin, port, al, a0, cl, c0, pl, tail, delta=1):
+    return [0, kind, suite, seed, flags, key] + list(cred) + [q, sq, pn, nec, off, fin, port, al, a0, cl, c0, pl, delta] + tail
 
 
 def gen_pkt_fields(rng, small=False):
@@ -194,7 +194,7 @@ def gen_pkt(rng):
     r = rng.random()
     if r < 0.5:
         f = gen_pkt_fields(rng, small=True)
-        return pkt_case(*f, rmuts(rng, 200))
+        return pkt_case(*f, rmuts(rng, 200), delta=rng.choice([1, 1, 2, 255, 256, 65536, (1 << 32) - 1, 1 << 32, rng.randrange(1, 1 << 20), VMAX]))
     suite = rng.randrange(2)
     r = rng.random()
     if r < 0.6:
@@ -241,7 +241,11 @@ def fixed_pkt(tier):
                 vs[slot] = v
                 fl = {0: 1 | 2 | 4 | 8, 1: 32 | 64, 2: 1 | 2 | 128}[kind]
                 out.append(pkt_case(kind, 0, 11, fl, vs[0], cred, 5, vs[1], vs[2], vs[3], vs[4], vs[5], 1, 2, 1, 2, 2, 3, [0, 0]))
-        # packet number + 2^32-bit relative offset overflow edge is only reachable on raw input
+        # retransmission: packet number / 32-bit distance edges (reliable stream data packets)
+        if kind == 0:
+            for pn, delta in ((0, 1), (5, (1 << 32) - 1), (5, 1 << 32), (VMAX - 1, 1), (VMAX, 1), (VMAX - 5, 5), (VMAX - 5, 6), (100, 7)):
+                for fl in (2, 2 | 4, 2 | 64, 0, 2 | 16):
+                    out.append(pkt_case(kind, 0, 11, fl, 70, cred, 5, 64, pn, 8, 9, 10, 1, 2, 1, 2, 2, 9, [0, 0], delta=delta))
     # raw: every first byte, every truncation of one valid packet of each kind
     for t in range(256):
         out.append([1, 0, t] + cred + [5, 0, 0, 0, 2, 0, 0, 0, 0, 0, 0, 0, 0] + [9] * 40)
@@ -369,7 +373,26 @@ def sc_known_class(case, impl, model):
         return False
 
 
+def pkt_known_class(case, impl, model):
+    """the second recorded finding, narrowly: a stream data packet that was retransmitted, where the
+    only accepted single-byte mutation of the retransmitted packet is byte 0 xor IS_RECOVERY_PACKET;
+    the implementation must agree with the model on everything (round trip, original packet:
+    0 accepted, wrong keys rejected)"""
+    if len(case) < 2 or case[0] != 0 or case[1] % 3 != 0:
+        return False
+    if impl is None or model is None or impl != model or impl.startswith("!"):
+        return False
+    t = impl.split()
+    return len(t) > 20 and t[-3:] == ["1", "0", "10"] and t[-7] == "1" and t[-4] == "0" and t[-13:-8] == ["1", "1", "0", "0", "-1"]
+
+
 def classify(p):
+    if p["component"] == "pkt":
+        if "minimal_case" in p and "minimal_impl" in p:
+            ok = pkt_known_class(p["minimal_case"], p.get("minimal_impl"), p.get("minimal_model"))
+        else:
+            ok = pkt_known_class(p["case"], p.get("impl"), p.get("model"))
+        return "retransmit_space_bit_unauthenticated" if ok else None
     if p["component"] != "sc":
         return None
     if "minimal_case" in p and "minimal_impl" in p:
@@ -402,7 +425,7 @@ registry.register("C18", {
          "nontrivial": lambda case, out: len(case) > 4 and 1 in case[2::],
          "histogram": map_hist},
     ],
-    "rule": "sc: fixed families (every kind x queue-id x varint size boundary, truncations, one mutation at every position, every first byte, every prefix length) + seeded random: 55% round-trip cases (fields -> real encoder with a key derived by the real schedule for either cipher suite -> real decoder; all 255 x len single-byte mutations inside the harness; up to 8 extra byte xors + truncation), 45% raw byte strings (half of them near-valid packets built by an independent Python encoder, mutated/truncated). pkt: every tag-bit combination of stream/datagram/control x 4 size profiles, every varint field at every size boundary, every first byte, every truncation of a valid packet of each kind, retransmission-offset overflow edges + seeded random: 50% round-trip cases (real encoder, real AES-GCM-128/256 or HMAC-SHA256/384 keys from the real key schedule, decode + open, all 255 x len single-byte mutations of header, ciphertext and tag inside the harness, one multi-byte mutation), 50% raw byte strings through the tag dispatcher (near-valid packets of all six kinds from an independent Python encoder, mutated/truncated, and noise). map: every (kind, forgery mode, entry point) on a fresh map, replayed/forged StaleKey sequences, entries older than 10 s with eviction enabled (harness sleeps) + seeded random op sequences of up to 30 deliveries/key-id issues with 4 forgery modes. A round-trip case is always non-trivial; a raw case when it decodes; a map case when it delivers at least one packet.",
+    "rule": "sc: fixed families (every kind x queue-id x varint size boundary, truncations, one mutation at every position, every first byte, every prefix length) + seeded random: 55% round-trip cases (fields -> real encoder with a key derived by the real schedule for either cipher suite -> real decoder; all 255 x len single-byte mutations inside the harness; up to 8 extra byte xors + truncation), 45% raw byte strings (half of them near-valid packets built by an independent Python encoder, mutated/truncated). pkt: every tag-bit combination of stream/datagram/control x 4 size profiles, every varint field at every size boundary, every first byte, every truncation of a valid packet of each kind, retransmission-offset overflow edges + seeded random: 50% round-trip cases (real encoder, real AES-GCM-128/256 or HMAC-SHA256/384 keys from the real key schedule, decode + open, all 255 x len single-byte mutations of header, ciphertext and tag inside the harness, one multi-byte mutation; reliable stream data packets are additionally retransmitted under a new packet number with the real Packet::retransmit, decoded, opened, opened with a wrong control key, and again subjected to all single-byte mutations), 50% raw byte strings through the tag dispatcher (near-valid packets of all six kinds from an independent Python encoder, mutated/truncated, and noise). map: every (kind, forgery mode, entry point) on a fresh map, replayed/forged StaleKey sequences, entries older than 10 s with eviction enabled (harness sleeps) + seeded random op sequences of up to 30 deliveries/key-id issues with 4 forgery modes. A round-trip case is always non-trivial; a raw case when it decodes; a map case when it delivers at least one packet.",
     "assumptions": [
         "ideal MAC / AEAD: a (nonce, header, ciphertext, tag) tuple opens / verifies only if the key holder produced it (explicit premise of the C18_*_rejected / *_accept_is_sent theorems; the harness monitors it with real HMAC-SHA256/384 and AES-128/256-GCM keys derived by the real key schedule)",
         "map handlers run one at a time (the model is sequential); entry age is the only use of wall-clock time (harness sleeps 10 s for the aged cases)",
